@@ -42,6 +42,9 @@ pub struct Reading {
     pub links: Vec<LinkOcc>,
     /// for every leaf block: (containers, index of the heading it is under in `headings` if any, kind, line)
     pub blocks: Vec<(Vec<String>, Option<usize>, String, usize)>,
+    /// the note's first block is a heading: its text is the note's title
+    pub title: Option<String>,
+    pub first_block_seen: bool,
 }
 
 pub fn strip_md(dest: &str) -> String {
@@ -145,8 +148,20 @@ pub fn read(text: &str, dir: &str) -> Reading {
     let mut holder = String::new();
     let mut heading_as_para = false;
     let mut quote_counter = 0usize;
+    let mut title_pending = false;
+    let mut title_buf = String::new();
     let mut para_first_in_item = false;
     for (ev, range) in Parser::new_ext(text, options()).into_offset_iter() {
+        match &ev {
+            Event::Start(Tag::Heading { .. }) => title_buf.clear(),
+            Event::Start(Tag::Paragraph | Tag::BlockQuote(_) | Tag::CodeBlock(_) | Tag::List(_) | Tag::Table(_) | Tag::HtmlBlock) | Event::Rule => r.out.first_block_seen = true,
+            Event::Text(t) | Event::Code(t) | Event::InlineMath(t) | Event::InlineHtml(t) => {
+                if title_pending {
+                    title_buf.push_str(t);
+                }
+            }
+            _ => {}
+        }
         match ev {
             Event::Start(tag) => match tag {
                 Tag::Paragraph => {
@@ -158,6 +173,8 @@ pub fn read(text: &str, dir: &str) -> Reading {
                     holder = "para".into();
                 }
                 Tag::Heading { level: l, .. } => {
+                    title_pending = !r.out.first_block_seen && r.path.is_empty();
+                    r.out.first_block_seen = true;
                     let first = r.block_start("heading", range.start);
                     // a heading that is the first block of a list item counts as that item's text
                     heading_as_para = first;
@@ -292,6 +309,10 @@ pub fn read(text: &str, dir: &str) -> Reading {
                     r.resume_item();
                 }
                 TagEnd::Heading(_) => {
+                    if title_pending {
+                        title_pending = false;
+                        r.out.title = Some(title_buf.clone());
+                    }
                     if !heading_as_para {
                         let t = r.buf.as_ref().map(|b| b.split_whitespace().collect::<Vec<_>>().join(" ")).unwrap_or_default();
                         if let Some(h) = r.out.headings.last_mut() {
